@@ -5,11 +5,17 @@
 (*                                                                         *)
 (* State machine around the decision procedure of AccessCore.tla.          *)
 (*                                                                         *)
-(*   cfg   the access settings currently installed (allowed, disallowed,   *)
-(*         hosts); replaced as a whole by SetAccess = one successful       *)
+(*   cfg   the access settings in force (allowed, disallowed, hosts);      *)
+(*         replaced as a whole by SetLists = one successful                *)
 (*         POST /control/access/set (the critical section of               *)
-(*         handleAccessSet).  The API refuses lists that share an item, so *)
-(*         SetAccess is only enabled for disjoint lists.                   *)
+(*         handleAccessSet).  SetLists is repeatable: the server lives     *)
+(*         through a history of installations.  The API refuses lists that *)
+(*         share an item, so SetLists is only enabled for disjoint lists.  *)
+(*   posted  history variable: every configuration posted so far, in       *)
+(*         order.  LastPostedRules says that what is in force is the       *)
+(*         configuration posted LAST, as posted -- re-posting the same     *)
+(*         lists in another letter case or order, or emptying the allow    *)
+(*         list and filling it again, leaves nothing of the earlier ones.  *)
 (*   obs   what the statement says must not move for a denied request:     *)
 (*         number of requests that reached the upstream (up), the filter   *)
 (*         (filt), the query log (qlog) and the statistics (stats).        *)
@@ -38,13 +44,17 @@
 EXTENDS AccessCore, TLC, Json
 
 CONSTANTS Universe,   \* "mc" | "clients" | "hosts"
-          MaxSet,     \* bound on SetAccess steps in a history
+          MaxSet,     \* bound on SetLists steps in a history
           MaxReq,     \* bound on Request steps in a history
-          Emitting    \* TRUE: print one @@V vector per SetAccess
+          Emitting    \* TRUE: print one @@V vector per SetLists
 
 VARIABLES cfg, last, obs, nset, nreq,
-          plan   \* enumeration aid only, see Init
-vars == <<cfg, last, obs, nset, nreq, plan>>
+          posted, \* history of posted configurations
+          plan    \* enumeration aid only, see Init
+vars == <<cfg, last, obs, nset, nreq, posted, plan>>
+\* The mc configuration identifies states up to the history (VIEW): posted is
+\* read by LastPostedRules only and never by an action's guard.
+NoHistory == <<cfg, last, obs, nset, nreq, plan>>
 
 \* ------------------------------------------------------------- the universes
 Bit4(i) == << (i \div 8) % 2, (i \div 4) % 2, (i \div 2) % 2, i % 2 >>
@@ -62,12 +72,12 @@ IdSeq   == <<NoId, "c1", "c2">>
 ClientFamily ==
     { Ip("v4", <<0,1,0,1>>), Ip("v4", <<1,1,0,0>>),
       Cidr("v4", <<0,1>>), Cidr("v4", <<1>>), Cidr("v4", <<>>),
-      Cidr("v4", <<0,1,0,1>>), Cidr("v4", <<1,1,0>>),
+      Cidr("v4", <<0,1,0,1>>), IdM("c1"),
       Ip("v6", <<0,1,0,1>>), Ip("v6", <<0,0,1,1>>),
       Cidr("v6", <<0,1>>), Cidr("v6", <<>>), Cidr("v6", <<0,0,1,1>>),
       Id("c1"), Id("c2") }
 
-McFamily == { Ip("v4", <<0,1,0,1>>), Cidr("v6", <<0,1>>), Id("c1") }
+McFamily == { Ip("v4", <<0,1,0,1>>), Cidr("v6", <<0,1>>), Id("c1"), IdM("c1") }
 
 \* Names.  "xa" is a label that ends like "a" (look-alike: xa.com must not be
 \* caught by a pattern for a.com).
@@ -79,18 +89,25 @@ NameSeq ==
        <<"com">>, <<"org">>, <<"a","com","org">>, <<"b","a","com","org">>,
        <<"a","b","a","com","org">> >>
 
+\* Query types of the universes (order of the emitted table).
+QtypeSeq == <<"A", "AAAA", "TXT", "HTTPS", "MX">>
+
 PatNames == {ACom, <<"b","a","com">>, <<"a","org">>}
 HostPatterns ==
     {Pat(k, n) : k \in {"exact", "domain", "wild"}, n \in PatNames}
       \cup {Pat("domain", <<"com">>), Pat("wild", <<"com">>)}
+      \* rules restricted to one query type
+      \cup {PatT("domain", ACom, "AAAA"), PatT("domain", ACom, "MX"),
+            PatT("wild", ACom, "A"), PatT("domain", <<"com">>, "TXT"),
+            PatT("all", <<>>, "HTTPS")}
 
-McPatterns == {Pat("exact", ACom), Pat("domain", ACom), Pat("wild", ACom)}
+McPatterns == {Pat("exact", ACom), Pat("wild", ACom), PatT("domain", ACom, "AAAA")}
 
 \* Small subsets by comprehension (never SUBSET S filtered by cardinality).
 Sub1(S) == {{}} \cup {{a} : a \in S}
 Sub2(S) == Sub1(S) \cup {{a, b} : a, b \in S}
 
-\* The list pairs / host lists a SetAccess may install.
+\* The list pairs / host lists a SetLists may install.
 ListPairs ==
     CASE Universe = "clients" ->
            {<<A, D>> : A \in Sub2(ClientFamily), D \in Sub2(ClientFamily)}
@@ -103,7 +120,7 @@ ListPairs ==
            {<<A, D>> : A \in Sub1(McFamily), D \in Sub1(McFamily)}
 
 HostLists ==
-    CASE Universe = "clients" -> {{Pat("domain", ACom)}}
+    CASE Universe = "clients" -> {{Pat("domain", ACom), PatT("domain", <<"b","com">>, "AAAA")}}
       [] Universe = "hosts"   -> Sub2(HostPatterns)
       [] Universe = "mc"      -> Sub1(McPatterns)
 
@@ -114,33 +131,39 @@ McAddrForms == { <<AddrSeq[6],  "mapped">>, <<AddrSeq[22], "zoned">>, <<AddrSeq[
 McNames == {ACom, <<"b","a","com">>}
 McRequests ==
     { [addr |-> af[1], form |-> af[2], id |-> c, idcase |-> ic, name |-> n,
-       spell |-> "plain", qtype |-> "A", proto |-> p] :
+       spell |-> "plain", qtype |-> q, proto |-> p] :
         af \in McAddrForms, c \in {NoId, "c1", "c2"}, ic \in {"lower", "mixed"},
-        n \in McNames, p \in Protos }
+        n \in McNames, q \in {"A", "AAAA"}, p \in Protos }
 Requests ==
     {r \in McRequests : /\ (r.id # NoId => r.proto \in IdProtos)
                         /\ (r.id = NoId => r.idcase = "lower")
-                        /\ (r.id = "c2" => r.idcase = "mixed")}
+                        /\ (r.id # NoId => r.idcase = "mixed")
+                        /\ (r.qtype = "AAAA" => r.name = ACom /\ r.form # "plain")
+                        /\ (r.id = "c2" => r.proto = "https" /\ r.qtype = "A")}
 
 \* ----------------------------------------------------------------- behaviour
 NoLast  == [out |-> "none"]
 NoCfg   == [allowed |-> {}, disallowed |-> {}, hosts |-> {}]
 ZeroObs == [up |-> 0, filt |-> 0, qlog |-> 0, stats |-> 0]
 
+\* 1 = must be denied, 0 = must not be, 2 = statement silent (either).
+Code(v) == IF v = {TRUE} THEN 1 ELSE IF v = {FALSE} THEN 0 ELSE 2
+
+\* Client table, address-major: entry (a, c).
 ExTable(c) ==
     [j \in 1..(Len(AddrSeq) * Len(IdSeq)) |->
-        IF Excluded(c, AddrSeq[((j - 1) \div Len(IdSeq)) + 1],
-                       IdSeq[((j - 1) % Len(IdSeq)) + 1]) THEN 1 ELSE 0]
+        Code(ExcludedSet(c, AddrSeq[((j - 1) \div Len(IdSeq)) + 1],
+                            IdSeq[((j - 1) % Len(IdSeq)) + 1]))]
 
-\* 1 = must be denied, 0 = must be served, 2 = statement silent (either).
+\* Name table, name-major: entry (n, q).
 HostTable(c) ==
-    [i \in 1..Len(NameSeq) |->
-        LET v == HostBlocked(c.hosts, NameSeq[i]) IN
-        IF v = {TRUE} THEN 1 ELSE IF v = {FALSE} THEN 0 ELSE 2]
+    [i \in 1..(Len(NameSeq) * Len(QtypeSeq)) |->
+        Code(HostBlocked(c.hosts, NameSeq[((i - 1) \div Len(QtypeSeq)) + 1],
+                                  QtypeSeq[((i - 1) % Len(QtypeSeq)) + 1]))]
 
 EmitUniverse ==
     PrintT(<<"@@V", ToJson([kind |-> "universe", addrs |-> AddrSeq, ids |-> IdSeq,
-                            names |-> NameSeq])>>)
+                            names |-> NameSeq, qtypes |-> QtypeSeq])>>)
 EmitCfg(c) ==
     PrintT(<<"@@V", ToJson([kind |-> "cfg", allowed |-> c.allowed,
                             disallowed |-> c.disallowed, hosts |-> c.hosts,
@@ -150,7 +173,7 @@ EmitCfg(c) ==
 \* computed by a single TLC worker, so enumerating thousands of list pairs
 \* from the single initial state would be sequential.  In the enumeration
 \* universes the initial state therefore already fixes which allowed list the
-\* SetAccess step is going to install (one initial state per allowed list);
+\* SetLists step is going to install (one initial state per allowed list);
 \* the set of reachable configurations is the same.  In the "mc" universe the
 \* aid is off.
 Plans ==
@@ -162,12 +185,13 @@ Init == /\ cfg = NoCfg
         /\ obs = ZeroObs
         /\ nset = 0
         /\ nreq = 0
+        /\ posted = <<>>
         /\ plan \in Plans
         /\ (Emitting => EmitUniverse)
 
 \* One successful POST /control/access/set.  Nothing is resolved, filtered,
 \* logged or counted by it, and there is no request in flight afterwards.
-SetAccess(A, D, H) ==
+SetLists(A, D, H) ==
     /\ nset < MaxSet
     \* Bound only: a reconfiguration after the first one is explored between
     \* two requests (histories S R* and S R S R).
@@ -175,6 +199,7 @@ SetAccess(A, D, H) ==
     /\ A \cap D = {}
     /\ (plan.on => A = plan.a)
     /\ cfg' = [allowed |-> A, disallowed |-> D, hosts |-> H]
+    /\ posted' = Append(posted, cfg')
     /\ last' = NoLast
     /\ nset' = nset + 1
     /\ UNCHANGED <<obs, nreq, plan>>
@@ -188,9 +213,9 @@ Request(r, o) ==
     /\ last' = [out |-> o, req |-> r]
     /\ obs' = [x \in DOMAIN obs |-> obs[x] + Effect(o)]
     /\ nreq' = nreq + 1
-    /\ UNCHANGED <<cfg, nset, plan>>
+    /\ UNCHANGED <<cfg, nset, posted, plan>>
 
-Next == \/ \E p \in ListPairs, H \in HostLists : SetAccess(p[1], p[2], H)
+Next == \/ \E p \in ListPairs, H \in HostLists : SetLists(p[1], p[2], H)
         \/ \E r \in Requests : \E o \in Outcomes(cfg, r) : Request(r, o)
 
 Spec == Init /\ [][Next]_vars
@@ -198,29 +223,41 @@ Spec == Init /\ [][Next]_vars
 \* -------------------------------------------------- the statement, restated
 HasLast == last.out # "none"
 
+\* Over histories: what decides is the configuration posted last, exactly as
+\* posted, whatever was posted before.
+LastPostedRules ==
+    /\ Len(posted) = nset
+    /\ (nset > 0 => cfg = posted[Len(posted)])
+    /\ (HasLast => last.out \in Outcomes(posted[Len(posted)], last.req))
+
 \* "... is never resolved, filtered, logged or counted: over UDP and DNSCrypt
 \*  it gets no reply at all, over every other transport only REFUSED."
 ExcludedNeverServed ==
     HasLast /\ Excluded(cfg, last.req.addr, last.req.id) =>
         last.out = Denial(last.req.proto)
 BlockedNameNeverServed ==
-    HasLast /\ (\E p \in cfg.hosts : OnListBy(p, last.req.name)) =>
+    HasLast /\ (\E p \in cfg.hosts : OnListBy(p, last.req.name, last.req.qtype)) =>
         last.out = Denial(last.req.proto)
 SilentOnDatagram ==
     HasLast => /\ (last.out = "drop"    => last.req.proto \in SilentProto)
                /\ (last.out = "refused" => last.req.proto \notin SilentProto)
 \* "All other requests are served."
 OthersServed ==
-    HasLast /\ ~Excluded(cfg, last.req.addr, last.req.id)
-            /\ (\A p \in cfg.hosts : ~OnListBy(p, last.req.name) /\ ~Undetermined(p, last.req.name))
+    HasLast /\ Admitted(cfg, last.req.addr, last.req.id)
+            /\ (\A p \in cfg.hosts : /\ ~OnListBy(p, last.req.name, last.req.qtype)
+                                      /\ ~Undetermined(p, last.req.name, last.req.qtype))
         => last.out = "served"
 
-\* The decision looks at nothing but (address, ClientID, name, transport):
-\* not at the form of the address, the spelling of the ClientID or of the
-\* name, nor at the query type.
-Canon(r) == [r EXCEPT !.form = "plain", !.idcase = "lower", !.spell = "plain", !.qtype = "A"]
+\* The decision looks at nothing but (address, ClientID, name, query type --
+\* the latter only through type-restricted patterns --, transport): not at the
+\* form of the address nor at the spelling of the ClientID or of the name.
+Canon(r) == [r EXCEPT !.form = "plain", !.idcase = "lower", !.spell = "plain"]
 PresentationIrrelevant ==
     HasLast => Outcomes(cfg, last.req) = Outcomes(cfg, Canon(last.req))
+\* Without type-restricted patterns the query type is irrelevant as well.
+TypeIrrelevantForPlainPatterns ==
+    (HasLast /\ \A p \in cfg.hosts : p.qt = "") =>
+        Outcomes(cfg, last.req) = Outcomes(cfg, [last.req EXCEPT !.qtype = "A"])
 
 \* Table-level restatements, over every (address, ClientID) of the universe.
 AllAddrs == {AddrSeq[j] : j \in 1..Len(AddrSeq)}
@@ -230,7 +267,7 @@ AllIds   == {IdSeq[j] : j \in 1..Len(IdSeq)}
 AllowModeIgnoresDisallowed ==
     cfg.allowed # {} =>
         \A a \in AllAddrs, c \in AllIds :
-            Excluded(cfg, a, c) = Excluded([cfg EXCEPT !.disallowed = {}], a, c)
+            ExcludedSet(cfg, a, c) = ExcludedSet([cfg EXCEPT !.disallowed = {}], a, c)
 \* Allow-list mode made of ClientIDs only: a request without ClientID is out,
 \* whatever its address.
 OnlyIdsAllowedExcludesAnonymous ==
@@ -246,7 +283,13 @@ BlockModeOneMatchSuffices ==
                 \/ \E e \in cfg.disallowed : EntryHasId(e, c)
 EmptyListsExcludeNobody ==
     (cfg.allowed = {} /\ cfg.disallowed = {}) =>
-        \A a \in AllAddrs, c \in AllIds : ~Excluded(cfg, a, c)
+        \A a \in AllAddrs, c \in AllIds : Admitted(cfg, a, c)
+\* An entry in another letter case is the only source of indeterminacy of the
+\* client decision.
+OnlyRespelledIdsAreOpen ==
+    \A a \in AllAddrs, c \in AllIds :
+        ExcludedSet(cfg, a, c) = {TRUE, FALSE} =>
+            \E e \in cfg.allowed \cup cfg.disallowed : EntryMayHaveId(e, c)
 
 \* Action properties: a denied request moves none of the observers, a served
 \* one moves each of them, a reconfiguration moves none.
@@ -255,6 +298,6 @@ DeniedMovesNothing ==
 ServedIsObserved ==
     [][(nreq' = nreq + 1 /\ last'.out = "served") =>
           \A x \in DOMAIN obs : obs'[x] = obs[x] + 1]_vars
-SetAccessMovesNothing ==
+SetListsMovesNothing ==
     [][nset' = nset + 1 => (obs' = obs /\ last' = NoLast)]_vars
 =============================================================================
